@@ -296,6 +296,10 @@ def worker(item: Any, res: runner.Result) -> None:  # pylint: disable=too-many-l
         res.violation("C11.sequence-not-one-block", item, lines=[i.line for i in bb.instructions], program=src)
         return
     stack: List[Tuple[int, int]] = []  # (producer position in block, out index)
+    # by-value view of the same stack: a pure shuffle (swap, dup, dup2, dig, cover, uncover, dupn, bury) moves values
+    # without changing them, so "the instruction that really pushed the operand" may also be read as the original
+    # producer of the moved value; a tool that looks through shuffles correctly is as right as one that does not
+    val_of: Dict[Tuple[int, int], Optional[Tuple[int, int]]] = {}
     sig = []
     for k, line in enumerate(seq, start=1):
         op, imms = parse_seq_line(line)
@@ -318,8 +322,17 @@ def worker(item: Any, res: runner.Result) -> None:  # pylint: disable=too-many-l
             else:
                 pos = [j for j, x in enumerate(bb.instructions) if x is a.instruction]
                 got.append((pos[0] if pos else -1, a.ins_out_values_index))
-        if got != exp_args:
-            res.violation("C11.operand-producer", item, opcode=op.name, line=line, position=k, expected=exp_args, actual=got)
+        def chain(t: Any) -> List[Any]:
+            """t, the slot it was moved from by a pure shuffle, the slot that one was moved from, ..."""
+            out_ = [t]
+            while t is not None and t in val_of:
+                t = val_of[t]
+                out_.append(t)
+            return out_
+
+        if len(got) != len(exp_args) or any(g_ not in chain(e_) for g_, e_ in zip(got, exp_args)):
+            res.violation("C11.operand-producer", item, opcode=op.name, line=line, position=k, expected=exp_args, actual=got,
+                          also_accepted=[chain(e_)[1:] for e_ in exp_args])
         # an operand the tool reads as an integer literal carries the value really pushed in that position
         for a in args:
             if isinstance(a, UnknownStackValue):
@@ -345,6 +358,29 @@ def worker(item: Any, res: runner.Result) -> None:  # pylint: disable=too-many-l
                               out_index=a.ins_out_values_index, tool_reads=val, pushed=actual)
         for o in range(nq):
             stack.append((k, o))
+        # values moved by a pure shuffle keep their original producer in the by-value view
+        inv = list(exp_args)  # the popped slots, deepest first (None = from before the block)
+        moved: Optional[List[Any]] = None
+        if len(inv) == np:
+            if op.name == "swap":
+                moved = [inv[1], inv[0]]
+            elif op.name == "dup":
+                moved = [inv[0], inv[0]]
+            elif op.name == "dup2":
+                moved = [inv[0], inv[1], inv[0], inv[1]]
+            elif op.name == "dig":
+                moved = inv + [inv[0]]
+            elif op.name == "cover":
+                moved = [inv[-1]] + inv[:-1]
+            elif op.name == "uncover":
+                moved = inv[1:] + [inv[0]]
+            elif op.name == "dupn":
+                moved = [inv[0]] * nq
+            elif op.name == "bury" and np >= 2:
+                moved = [inv[-1]] + inv[1:-1]
+        if moved is not None and len(moved) == nq:
+            for o, v_ in enumerate(moved):
+                val_of[(k, o)] = v_
         sig.append((np, nq))
     res.outcome(tuple(sig))
     if any(p for p, _ in sig):
